@@ -329,10 +329,29 @@ def gen_snapshot(rng, tier, uniq, valid_bias=0.0):
         s["hot_cues"] = [c if c is None or len(c[0]) <= 255 else (c[0][:255],) + c[1:] for c in s["hot_cues"][:8]]
         s["loops"] = [c if c is None or len(c[0]) <= 255 else (c[0][:255],) + c[1:] for c in s["loops"][:8]]
         if s["waveform"]:
-            if s["sample_count"] is None:
+            # a waveform needs a track with samples and a rate of at least 210 Hz (overview size 1024, not 0)
+            if not s["sample_count"]:
                 s["sample_count"] = rng.choice([100000, 8820000, 1, 209])
-            if s["sample_rate"] is None or (isinstance(s["sample_rate"], str) and s["sample_rate"] in EXOTIC_F):
-                s["sample_rate"] = rng.choice([44100.0, 48000.0, 209.0, 210.0])
+            if not rate_has_overview(s["sample_rate"]):
+                s["sample_rate"] = rng.choice([44100.0, 48000.0, 210.0, -210.5])
+    return s
+
+
+def rate_has_overview(r):
+    """the sample rate truncates to an integer t in the int64 range with |t| >= 210 (quantisation number != 0)"""
+    if r is None:
+        return False
+    if isinstance(r, str):
+        r = struct.unpack(">d", bytes.fromhex(r))[0]
+    if r != r or r in (float("inf"), float("-inf")):
+        return False
+    return 210 <= abs(int(r)) < 2 ** 63
+
+
+def storable_waveform(s):
+    """drop the waveform of a snapshot dict unless 2.x can store one for it"""
+    if s.get("waveform") and not (s.get("sample_count") and rate_has_overview(s.get("sample_rate"))):
+        s["waveform"] = b""
     return s
 
 
